@@ -31,6 +31,10 @@ func c26Gen(rng *core.Rng, tier string) *harness.Plan {
 		c26ByzGen(rng, tier, p) // cluster part with a Byzantine leader, see c26byz.go
 		return p
 	}
+	if rng.Chance(0.08) {
+		c26DayGen(rng, tier, p) // work loops at different distances behind their chains over a day change, see c26day.go
+		return p
+	}
 	p.Params["chains"] = int64(1 + rng.IntN(4))
 	if rng.Chance(0.25) {
 		// concurrent mode (rig R3c): several chains' aggregators submit at the same time, see c26conc.go
@@ -77,6 +81,9 @@ func c26Exec(p *harness.Plan) *harness.Outcome {
 	}
 	if p.P("conc", 0) == 1 {
 		return c26Conc(p)
+	}
+	if p.P("day_change", 0) == 1 {
+		return c26DayExec(p)
 	}
 	c := newCtx("C26")
 	f, err := storerig.NewFix(7)
